@@ -122,6 +122,7 @@ def generate(rng, tier, idx):
     # the IGNORE entries that lie below some directory are kept in a registered sub-Manifest of that directory instead
     # of the top-level Manifest
     sub_ign = rng.randrange(100) if rng.random() < 0.4 else None
+    top_spelling = rng.choice([None, None, None, 'dot', 'dotdot', 'slashes'])
     # ... and that sub-Manifest FILE lives on another filesystem (bind mount, link to a file elsewhere) while its
     # directory does not
     sub_manifest_foreign = sub_ign is not None and rng.random() < 0.3
@@ -130,7 +131,7 @@ def generate(rng, tier, idx):
     return {'prop': ID, 'order_key': '%016x' % rng.getrandbits(64), 'tree': tree, 'mounts': mounts,
             'ignores': ignores, 'ops': ops, 'unreg': unreg, 'file_entry_for_ext': bool(file_entry_for_ext),
             'file_entry_in_hidden_ext': bool(file_entry_in_hidden_ext), 'sub_ign': sub_ign,
-            'sub_manifest_foreign': bool(sub_manifest_foreign), 'ino_collision': ino_collision}
+            'sub_manifest_foreign': bool(sub_manifest_foreign), 'ino_collision': ino_collision, 'top_spelling': top_spelling}
 
 
 def dev_of(mounts, base, realpath, default):
@@ -243,6 +244,10 @@ def execute(sc):
                     counters['sub_manifest_file_on_another_device'] = 1
         top = os.path.join(root, 'Manifest')
         man_dev = dev_of(mounts, base, top, default_dev)
+        # the same top-level Manifest under a spelling that is not in normal form (`gemato verify .`, a doubled slash,
+        # a detour through '..'): library calls get it as given
+        top_given = {'dot': os.path.join(root, '.', 'Manifest'), 'dotdot': os.path.join(root, '..', os.path.basename(root), 'Manifest'),
+                     'slashes': root + '//Manifest'}.get(sc.get('top_spelling'), top)
         nontrivial = bool(g_all['links'] or mounts)
         seam = Seam(base, order_key=sc['order_key'], mounts=mounts, default_dev=default_dev, virtual_root=True,
                     ino_alias=({'mnt1': 'tree'} if sc.get('ino_collision') else None))
@@ -326,30 +331,30 @@ def execute(sc):
             with seam:
                 seam.begin_op(i, step_cap=cap)
                 if kind == 'verify-sub':
-                    r = call(lambda: ManifestRecursiveLoader(top, **kw).assert_directory_verifies(subw))
+                    r = call(lambda: ManifestRecursiveLoader(top_given, **kw).assert_directory_verifies(subw))
                 elif kind == 'unregistered-sub':
-                    r = call(lambda: ManifestRecursiveLoader(top, **kw).load_unregistered_manifests(subw) == [])
+                    r = call(lambda: ManifestRecursiveLoader(top_given, **kw).load_unregistered_manifests(subw) == [])
                 elif kind == 'verify':
-                    r = call(lambda: ManifestRecursiveLoader(top, **kw).assert_directory_verifies(''))
+                    r = call(lambda: ManifestRecursiveLoader(top_given, **kw).assert_directory_verifies(''))
                 elif kind == 'verify-kg':
-                    r = call(lambda: ManifestRecursiveLoader(top, **kw).assert_directory_verifies('', fail_handler=lambda e: False))
+                    r = call(lambda: ManifestRecursiveLoader(top_given, **kw).assert_directory_verifies('', fail_handler=lambda e: False))
                 elif kind == 'update':
                     def upd():
-                        m = ManifestRecursiveLoader(top, hashes=['SHA256'], **kw)
+                        m = ManifestRecursiveLoader(top_given, hashes=['SHA256'], **kw)
                         m.update_entries_for_directory('')
                         m.save_manifests()
                         return True
                     r = call(upd)
                 elif kind == 'create':
                     def cre():
-                        m = ManifestRecursiveLoader(top, hashes=['SHA256'], allow_create=True, **kw)
+                        m = ManifestRecursiveLoader(top_given, hashes=['SHA256'], allow_create=True, **kw)
                         m.update_entries_for_directory('')
                         m.save_manifests()
                         return True
                     r = call(cre)
                 elif kind == 'unregistered':
                     want_unreg = sorted(ud + '/Manifest' for ud in sc.get('unreg', []) if ud in g['dirs'])
-                    r = call(lambda: sorted(ManifestRecursiveLoader(top, **kw).load_unregistered_manifests('')) == want_unreg)
+                    r = call(lambda: sorted(ManifestRecursiveLoader(top_given, **kw).load_unregistered_manifests('')) == want_unreg)
                 elif kind in ('cli-verify-2', 'cli-update-2'):
                     # several paths on one command line: a small clean tree first, the tree under test second
                     # (per-path handling must not lose the options after the first path)
